@@ -41,3 +41,12 @@ Print Assumptions generated_broker_no_data_race.
 
 Theorem broker_no_check_then_act : cta_program (contracts_C04 program) (reachable program entries) = [].
 Proof. vm_compute. reflexivity. Qed.
+
+(* every Store / Delete on a graph's roots map (pseudo field roots!) and every access to b.nodes / b.graphs happens while Broker.lock
+   is held, the writes in write mode: no registry call mutates the maps after it released the lock *)
+Definition registry_complaints := Eval vm_compute in
+  flat_complaints (check_program (contracts_registry program) program entries lit_callees unsupported).
+Print registry_complaints.
+Theorem registry_map_mutations_under_lock :
+  check_program (contracts_registry program) program entries lit_callees unsupported = [].
+Proof. vm_compute. reflexivity. Qed.
